@@ -72,5 +72,6 @@ Keys5 == { <<>>, <<1>>, <<1,1,1,1,1,1,1,1>>, <<1,1,1,1,1,1,1,1,0>>, <<1,1,1,1,1,
 Args5 == Keys5 \cup { <<1,1>>, <<1,1,1,1,1,1,1,1,5>>, <<2>> }
 Keys5b == { <<1>>, <<2>>, <<3>>, <<4>>, <<9,9,9,9,9,9,9,9,7>> }
 Args5b == Keys5b \cup { <<>>, <<2, 0>>, <<9,9,9,9,9,9,9,9>>, <<9,9,9,9,9,9,9,9,7,0>> }
+Keys12S == { <<1>>, <<2>>, <<3>>, <<4>>, <<5>>, <<6>>, <<7>>, <<8>>, <<9>>, <<10>>, <<11>>, <<12>> }
 Keys9S == { <<1>>, <<2>>, <<3>>, <<4>>, <<5>>, <<6>>, <<7>>, <<8>>, <<9>> }
 ====
